@@ -1,6 +1,7 @@
 #!/bin/bash
-# usage: run_seeded_all.sh [jobs]  — every seeded change against every claimed check, in parallel;
-# writes /verif/seeded/RESULTS.txt (one line per mutant: which checks exit 1 and the first rule that fires).
+# usage: run_seeded_all.sh [jobs] [name ...] — every seeded change (or the named ones) against every claimed
+# check, in parallel; writes /verif/seeded/RESULTS.txt (one line per mutant: which checks exit 1 and the
+# first rule that fires). With names, the lines of those mutants are replaced and the others kept.
 export GOFLAGS=-mod=mod GOPROXY=off GOSUMDB=off GOTOOLCHAIN=local; unset GOWORK
 J=${1:-8}
 (cd /verif/checker && go build -o /verif/bin/yqcheck .) || exit 2
@@ -22,5 +23,12 @@ one() {
 }
 export -f one; export CLAIMED
 cp /verif/known_findings.json /tmp/kf.json
-ls /verif/seeded | grep -v RESULTS | xargs -P $J -I{} bash -c 'one {}' | sort > /verif/seeded/RESULTS.txt
-cat /verif/seeded/RESULTS.txt
+shift
+if [ $# -gt 0 ]; then
+  T=$(mktemp); printf '%s\n' "$@" | xargs -P $J -I{} bash -c 'one {}' > $T
+  for n in "$@"; do sed -i "/^$n:/d" /verif/seeded/RESULTS.txt; done
+  cat $T >> /verif/seeded/RESULTS.txt; sort -o /verif/seeded/RESULTS.txt /verif/seeded/RESULTS.txt; cat $T; rm -f $T
+else
+  ls /verif/seeded | grep -v RESULTS | xargs -P $J -I{} bash -c 'one {}' | sort > /verif/seeded/RESULTS.txt.new && mv /verif/seeded/RESULTS.txt.new /verif/seeded/RESULTS.txt
+  cat /verif/seeded/RESULTS.txt
+fi
